@@ -380,6 +380,14 @@ def fam_c09(R, n):
                             meta=dict(literal=w.encode('utf-8').hex(), lit_name='Lit')))
             out.append(dict(family='c09-literal', src=enum([], ['#[regex(%s)] Re,' % rust_str(r), '#[token(%s)] Lit,' % rust_str(w)]),
                             meta=dict(literal=w.encode('utf-8').hex(), lit_name='Lit')))
+    # the same consequence with two regexes of different default priorities next to the literal, in every order of the three
+    # (the winner of a state is picked in one pass over the matching leaves, in leaf order)
+    for w, rs in [('abc', ['[a-z]+', '[a-c][a-z]+', 'a[a-z]+', '(?i)A[a-z]+', 'ab.', '[a-z]{2,}', 'abc$']), ('==', ['=+', '[=!]=', '==?']),
+                  ('é中', ['\\p{L}+', '.\\p{Han}', '[^a]+'])]:
+        for r1, r2 in itertools.combinations(rs, 2):
+            items = [('Lit', '#[token(%s)] Lit,' % rust_str(w)), ('R1', '#[regex(%s)] R1,' % rust_str(r1)), ('R2', '#[regex(%s)] R2,' % rust_str(r2))]
+            for perm in itertools.permutations(items):
+                out.append(dict(family='c09-literal', src=enum([], [x[1] for x in perm]), meta=dict(literal=w.encode('utf-8').hex(), lit_name='Lit')))
     return out
 
 
